@@ -115,6 +115,13 @@ CLAIMED = {
         "DESIGN.md section 8, C07",
         "seeded rotation schedules with message faults; probe-after-every-step invariant + bounded freshness",
     ),
+    "C16": (
+        "exploration",
+        "Node level, the part of the property that meets the network: 1-6 real nodes (thorough: up to 24, beyond the 20 peer limit of an announcement) with 0-9 advertised addresses per family, claims of every address length the configuration can express with any prefix 0-255, timeouts up to 65535; plain meshes in 30 % of the runs; a corrupting network (bit flips, truncation, duplicates); an outside sender presenting truncations, single-byte substitutions at tag/length positions, random parts with boundary lengths behind a genuine key hash and random strings up to 2 KiB to the handshake decoder; and an alien-version peer (trusted key, real handshake/envelope code, OWN node-info encoder and decoder written from the format) that announces claims of every address length 0-16 and prefix 0-255, 0-9 addresses per family and unknown parts (tags 6-255, 0-700 bytes) at every position. Oracles: no unwind; real node -> real node: decoded claims and timeout equal the sender's, held addresses are the seen address followed by the sender's stable own addresses in normal form (7 per family, IPv6 first); real node -> reference decoder: same, at most 20 peer entries, each in normal form; reference encoder -> real node: decoded claims, timeout and addresses equal what the alien encoded, the alien stays connected at every step and packets for its claim reach it byte-identical.",
+        "Not covered by simulation and not claimed: the pure-function part of the property (round trip over all generated message shapes, every truncation and substitution of every encoding, the rotation-message decoder on arbitrary bytes, which sits behind AEAD and is only reached by genuine and alien-peer messages). Trusted: the reference codec in sim/src/c16.rs. Own addresses a node adopted from peers come and go, so only the stable part (configured + socket address) is compared exactly.",
+        "DESIGN.md section 8, C16",
+        "seeded meshes with corrupting network, decoder-input adversary and an alien-version peer with an independent codec",
+    ),
     "C17": (
         "exploration",
         "7/8 of the runs drive the real BeaconSerializer over the simulated clock and real files: 1-4 beacons for address lists of 0-8 IPv4 / 0-4 IPv6 entries, writer clocks inside, at the edge of and beyond the reader's age limit (50 as in the node, 0, 65535, around 32768, any), 200 passwords incl. empty, reader hour following the run index (all 65536 stamps over a thorough batch) or next to the 16 bit wrap; text with separators inside beacons and stray / partial / overlapping markers; decoding directly or through a file that is torn at any byte, garbage or missing. 1/8 of the runs are 2-5 real nodes that know each other only through beacon files maintained by a publisher actor, with clocks anywhere in the hour cycle, skews up to +-160 h and three passwords. Oracles: clean texts yield exactly the concatenated address lists (IPv4 first) of the beacons with the reader's password and circular hour distance <= limit; torn files a whole-beacon prefix; with stray markers every genuine beacon is still found in order; no unwind on any text; every BeaconLoaded probe of a node equals the reference over its file; nodes with a common password and clocks within 48 h meet.",
